@@ -91,6 +91,7 @@ var ggSelected = []ggSel{
 	{"settings.go", "", "setThreshold"},
 	{"settings.go", "", "maxInlineMapValueSize"},
 	{"cbor_tag_nums.go", "", "ReservedCBORTagNumberRange"},
+	{"cbor_tag_nums.go", "", "IsCBORTagNumberRangeAvailable"},
 	// the rebalancing decision predicates of the slab trees (property C05): struct receivers read
 	// through scalar fields only (see gengo_stmt.go, "struct receivers").  Not listed because they are
 	// outside the subset (loops over a slice of interface values / calls through an interface):
